@@ -148,6 +148,13 @@ Proof.
   - pose proof (IHl x Hin Hp). destruct (p a); lia.
 Qed.
 
+Lemma cntf_all : forall p l, (forall x, In x l -> p x = true) -> cntf p l = Z.of_nat (length l).
+Proof.
+  induction l; intros; auto. rewrite cntf_cons.
+  rewrite IHl by (intros; apply H; simpl; auto). rewrite (H a) by (simpl; auto).
+  cbn [length]. lia.
+Qed.
+
 (* fold over a flat_map *)
 Lemma fold_left_flat_map : forall A B C (f : A -> C -> A) (g : B -> list C) l a,
   fold_left f (flat_map g l) a = fold_left (fun a b => fold_left f (g b) a) l a.
@@ -507,11 +514,104 @@ Proof.
   apply (cntf_in_pos _ _ (getZ l v)); [|lia]. unfold getZ. apply nth_In. lia.
 Qed.
 
+Lemma zsum_map_update : forall (f g : Z -> Z) l v, NoDup l -> In v l ->
+  (forall x, In x l -> x <> v -> g x = f x) ->
+  zsum (map g l) = zsum (map f l) - f v + g v.
+Proof.
+  induction l as [|a l IH]; intros v Hnd Hin Heq; [destruct Hin|].
+  inversion Hnd; subst. cbn [map zsum fold_right]. fold (zsum (map g l)). fold (zsum (map f l)).
+  destruct Hin as [->|Hin].
+  - assert (zsum (map g l) = zsum (map f l)); [|lia].
+    clear IH Hnd. assert (Hx : forall x, In x l -> g x = f x).
+    { intros x Hx. apply Heq; [right; auto|]. intros ->. auto. }
+    clear Heq H1 H2. induction l; auto. cbn [map zsum fold_right]. fold (zsum (map g l)). fold (zsum (map f l)).
+    rewrite IHl, (Hx a) by (intros; try apply Hx; simpl; auto). reflexivity.
+  - rewrite (IH v) by (auto; intros; apply Heq; simpl; auto).
+    rewrite (Heq a); [lia|left; auto|]. intros ->. auto.
+Qed.
+
+Lemma zsum_map_le : forall (f g : Z -> Z) l, (forall x, In x l -> f x <= g x) -> zsum (map f l) <= zsum (map g l).
+Proof.
+  induction l; intros H; cbn [map zsum fold_right]; [lia|]. fold (zsum (map g l)). fold (zsum (map f l)).
+  pose proof (H a (or_introl eq_refl)). assert (zsum (map f l) <= zsum (map g l)) by (apply IHl; intros; apply H; simpl; auto). lia.
+Qed.
+
+Lemma zsum_map_nonneg : forall (f : Z -> Z) l, (forall x, In x l -> 0 <= f x) -> 0 <= zsum (map f l).
+Proof.
+  induction l; intros H; cbn [map zsum fold_right]; [lia|]. fold (zsum (map f l)).
+  pose proof (H a (or_introl eq_refl)). assert (0 <= zsum (map f l)) by (apply IHl; intros; apply H; simpl; auto). lia.
+Qed.
+
+Lemma zsum_map_ge_term : forall (f : Z -> Z) l v, (forall x, In x l -> 0 <= f x) -> In v l -> f v <= zsum (map f l).
+Proof.
+  induction l; intros v H Hin; [destruct Hin|]. cbn [map zsum fold_right]. fold (zsum (map f l)).
+  pose proof (H a (or_introl eq_refl)).
+  assert (0 <= zsum (map f l)) by (apply zsum_map_nonneg; intros; apply H; simpl; auto).
+  destruct Hin as [->|Hin]; [lia|]. assert (f v <= zsum (map f l)) by (apply IHl; auto; intros; apply H; simpl; auto). lia.
+Qed.
+
+Lemma cntf_eq_one : forall l v, NoDup l -> In v l -> cntf (fun w => w =? v) l = 1.
+Proof.
+  induction l; intros v Hnd Hin; [destruct Hin|]. inversion Hnd; subst. rewrite cntf_cons.
+  destruct Hin as [->|Hin].
+  - replace (v =? v) with true by lia. assert (cntf (fun w => w =? v) l = 0); [|lia].
+    destruct (Z_le_gt_dec (cntf (fun w => w =? v) l) 0) as [Hle|Hgt]; [pose proof (cntf_nonneg (fun w => w =? v) l); lia|].
+    assert (Hpos : 0 < cntf (fun w => w =? v) l) by lia.
+    destruct (cntf_pos_in _ _ Hpos) as [x [Hx Hxv]]. assert (x = v) by lia. subst. contradiction.
+  - rewrite IHl by auto. replace (a =? v) with false; [lia|]. assert (a <> v) by (intros ->; auto). lia.
+Qed.
+
 Section FloodFill.
 Variable n : Z.
 Variable adj : list (list Z).
 Hypothesis Hn : 0 < n.
 Hypothesis Hsym : sym_adj n adj.
+(* Lc: number of ints in the scratch stack; it must hold 1 + (directed off-diagonal edges) *)
+Variable Lc : nat.
+Hypothesis HLc : 1 + nnz_off n adj <= Z.of_nat Lc.
+
+Definition pot (l : list Z) : Z :=
+  zsum (map (fun v => if getZ l v =? -1 then row_deg n adj v else 0) (zrange n)).
+
+Lemma row_deg_nonneg : forall v, 0 <= row_deg n adj v.
+Proof. intros. apply cntf_nonneg. Qed.
+
+Lemma pot_le_nnz : forall l, pot l <= nnz_off n adj.
+Proof.
+  intros. unfold pot, nnz_off. apply zsum_map_le. intros x _. pose proof (row_deg_nonneg x).
+  destruct (getZ l x =? -1); lia.
+Qed.
+
+Lemma pot_ge : forall l v, inr n v -> getZ l v = -1 -> row_deg n adj v <= pot l.
+Proof.
+  intros l v Hv Hl. unfold pot.
+  pose proof (zsum_map_ge_term (fun v => if getZ l v =? -1 then row_deg n adj v else 0) (zrange n) v) as H.
+  cbv beta in H. rewrite Hl in H. replace (-1 =? -1) with true in H by reflexivity. apply H.
+  - intros x _. pose proof (row_deg_nonneg x). destruct (getZ l x =? -1); lia.
+  - apply in_zrange; auto.
+Qed.
+
+Lemma pot_setZ : forall l v k, length l = Z.to_nat n -> inr n v -> getZ l v = -1 -> k <> -1 ->
+  pot (setZ l v k) = pot l - row_deg n adj v.
+Proof.
+  intros l v k Hlen Hv Hl Hk. unfold pot.
+  rewrite (zsum_map_update (fun x => if getZ l x =? -1 then row_deg n adj x else 0)
+             (fun x => if getZ (setZ l v k) x =? -1 then row_deg n adj x else 0) (zrange n) v).
+  - cbv beta. rewrite Hl. rewrite getZ_setZ_same by (unfold inr in Hv; lia).
+    replace (-1 =? -1) with true by reflexivity. replace (k =? -1) with false by lia. lia.
+  - apply NoDup_zrange.
+  - apply in_zrange; auto.
+  - intros x Hx Hne. apply in_zrange in Hx. rewrite getZ_setZ_other by lia. reflexivity.
+Qed.
+
+(* the test of the neighbour loop *)
+Definition pc (v : Z) (labs : list Z) (nb : Z) : bool := negb (get2 adj v nb =? 0) && (getZ labs nb =? -1).
+
+Lemma pc_le_deg : forall v labs, inr n v -> getZ labs v <> -1 -> cntf (pc v labs) (zrange n) <= row_deg n adj v.
+Proof.
+  intros v labs Hv Hl. unfold row_deg. apply cntf_mono. intros x _ Hp. unfold pc in Hp.
+  destruct (x =? v) eqn:E; [assert (x = v) by lia; subst; lia|lia].
+Qed.
 
 Lemma conn_inr : forall a b, conn n adj a b -> inr n a /\ inr n b.
 Proof. induction 1; intuition. Qed.
@@ -546,11 +646,11 @@ Qed.
 
 (* ---- the neighbour loop ---- *)
 Lemma push_fold : forall v l s,
-  0 <= ns s -> ns s + Z.of_nat (length l) <= Z.of_nat (length (stk s)) ->
+  0 <= ns s -> ns s + cntf (pc v (lab s)) l <= Z.of_nat (length (stk s)) ->
   lab (fold_left (push_step adj v) l s) = lab s /\
   length (stk (fold_left (push_step adj v) l s)) = length (stk s) /\
   bad (fold_left (push_step adj v) l s) = bad s /\
-  ns s <= ns (fold_left (push_step adj v) l s) <= ns s + Z.of_nat (length l) /\
+  ns (fold_left (push_step adj v) l s) = ns s + cntf (pc v (lab s)) l /\
   (forall idx, 0 <= idx < ns s -> getZ (stk (fold_left (push_step adj v) l s)) idx = getZ (stk s) idx) /\
   (forall idx, ns s <= idx < ns (fold_left (push_step adj v) l s) ->
      In (getZ (stk (fold_left (push_step adj v) l s)) idx) l /\
@@ -561,9 +661,10 @@ Lemma push_fold : forall v l s,
                  getZ (stk (fold_left (push_step adj v) l s)) idx = w).
 Proof.
   intros v l. induction l as [|a l IH]; intros s Hns Hcap.
-  - simpl. repeat split; auto; try lia; intros; try lia; try contradiction.
-  - cbn [fold_left]. cbn [length] in Hcap. cbn [length].
-    destruct (negb (get2 adj v a =? 0) && (getZ (lab s) a =? -1)) eqn:Epush.
+  - simpl. rewrite cntf_nil. repeat split; auto; try lia; intros; try lia; try contradiction.
+  - cbn [fold_left]. rewrite cntf_cons in Hcap. rewrite !cntf_cons.
+    pose proof (cntf_nonneg (pc v (lab s)) l) as Hcn.
+    destruct (pc v (lab s) a) eqn:Epush; unfold pc in Epush.
     + (* a is pushed *)
       assert (Hs1 : push_step adj v s a =
                     mkFF (lab s) (setZ (stk s) (ns s) a) (ns s + 1) (bad s || negb (in_array (stk s) (ns s)))).
@@ -573,12 +674,13 @@ Proof.
       assert (Hin : in_array (stk s) (ns s) = true) by (unfold in_array; lia).
       destruct (IH s1) as [I1 [I2 [I3 [I4 [I5 [I6 I7]]]]]].
       { unfold s1; cbn [ns]. lia. }
-      { unfold s1; cbn [ns stk]. rewrite setZ_length. lia. }
+      { unfold s1; cbn [ns stk lab]. rewrite setZ_length. lia. }
       assert (E1 : lab s1 = lab s) by reflexivity.
       assert (E2 : stk s1 = setZ (stk s) (ns s) a) by reflexivity.
       assert (E3 : ns s1 = ns s + 1) by reflexivity.
       assert (E4 : bad s1 = bad s || negb (in_array (stk s) (ns s))) by reflexivity.
       rewrite E1, E2, E3, ?E4 in *. rewrite setZ_length in I2.
+      pose proof (cntf_nonneg (pc v (lab s)) l) as Hcn'.
       assert (Htop : getZ (stk (fold_left (push_step adj v) l s1)) (ns s) = a).
       { rewrite I5 by lia. apply getZ_setZ_same. lia. }
       split; [auto|]. split; [auto|]. split; [rewrite I3, Hin; simpl; apply orb_false_r|].
@@ -613,7 +715,7 @@ Hypothesis Hfresh : forall v, inr n v -> getZ lab0 v < k.
 
 Definition Inv (s : FF) : Prop :=
   length (lab s) = Z.to_nat n /\
-  length (stk s) = Z.to_nat (n * n) /\
+  length (stk s) = Lc /\
   0 <= ns s /\
   bad s = false /\
   (forall idx, 0 <= idx < ns s -> inr n (getZ (stk s) idx) /\ conn n adj r (getZ (stk s) idx)) /\
@@ -622,7 +724,8 @@ Definition Inv (s : FF) : Prop :=
   (forall v w, inr n v -> inr n w -> getZ (lab s) v = k -> edge adj v w ->
      getZ (lab s) w <> -1 \/ exists idx, 0 <= idx < ns s /\ getZ (stk s) idx = w) /\
   (getZ (lab s) r = k \/ exists idx, 0 <= idx < ns s /\ getZ (stk s) idx = r) /\
-  ns s + n * U (lab s) <= n * U lab0 + 1.
+  ns s + n * U (lab s) <= n * U lab0 + 1 /\
+  ns s + pot (lab s) <= 1 + pot lab0.
 
 Definition mu (s : FF) : Z := ns s + n * U (lab s).
 
@@ -632,7 +735,7 @@ Proof. apply Z.mul_le_mono_nonneg_l; [lia|]. pose proof (U_le_length lab0). lia.
 Lemma dfs_step_inv : forall s, Inv s -> 0 < ns s ->
   Inv (dfs_step n adj k s) /\ mu (dfs_step n adj k s) < mu s.
 Proof.
-  intros s [L1 [L2 [Hns [Hbad [Hstk [Hlab [Hcl [Hroot Hmu]]]]]]]] Hpos.
+  intros s [L1 [L2 [Hns [Hbad [Hstk [Hlab [Hcl [Hroot [Hmu Hpot]]]]]]]]] Hpos.
   unfold dfs_step. set (ns1 := ns s - 1). set (v := getZ (stk s) ns1).
   destruct (Hstk ns1) as [Hv Hcv]; [lia|]. fold v in Hv, Hcv.
   destruct (negb (getZ (lab s) v =? -1)) eqn:Elab.
@@ -642,7 +745,7 @@ Proof.
     split; [auto|]. split; [auto|]. split; [lia|]. split; [auto|].
     split; [intros idx Hidx; apply Hstk; lia|].
     split; [auto|].
-    split; [|split; [|lia]].
+    split; [|split; [|split; lia]].
     + intros a w Ha Hw Hak He. destruct (Hcl a w Ha Hw Hak He) as [?|[idx [Hidx Hget]]]; auto.
       destruct (Z.eq_dec idx ns1) as [->|Hne].
       * left. fold v in Hget. subst w. lia.
@@ -662,19 +765,23 @@ Proof.
     assert (HU1 : 1 <= U (lab s)).
     { apply (U_pos _ v); auto. unfold inr in Hv. lia. }
     pose proof U0_le as HU0.
-    assert (Hcap : ns1 + n <= n * n).
-    { assert (n * 1 <= n * U (lab s)) by (apply Z.mul_le_mono_nonneg_l; lia). lia. }
+    assert (Hpot' : pot (setZ (lab s) v k) = pot (lab s) - row_deg n adj v) by (apply pot_setZ; auto).
+    pose proof (pot_ge (lab s) v Hv Hlv) as Hpg. pose proof (pot_le_nnz lab0) as Hpn.
+    assert (Hpc : cntf (pc v (setZ (lab s) v k)) (zrange n) <= row_deg n adj v).
+    { apply pc_le_deg; auto. rewrite getZ_setZ_same by (unfold inr in Hv; lia). auto. }
+    pose proof (cntf_nonneg (pc v (setZ (lab s) v k)) (zrange n)) as Hpc0.
+    pose proof (cntf_le_length (pc v (setZ (lab s) v k)) (zrange n)) as Hpcn. rewrite zrange_length in Hpcn.
     set (s1 := mkFF (setZ (lab s) v k) (stk s) ns1 (bad s)).
     destruct (push_fold v (zrange n) s1) as [P1 [P2 [P3 [P4 [P5 [P6 P7]]]]]].
     { simpl. lia. }
-    { simpl. rewrite zrange_length, L2. lia. }
-    simpl in P1, P2, P3, P4, P5, P6, P7. rewrite zrange_length in P4.
+    { simpl. rewrite L2. lia. }
+    simpl in P1, P2, P3, P4, P5, P6, P7.
     set (s' := fold_left (push_step adj v) (zrange n) s1) in *.
     assert (Hget' : forall a, inr n a -> getZ (lab s') a = if v =? a then k else getZ (lab s) a).
     { intros a Ha. rewrite P1. apply getZ_setZ; unfold inr in *; lia. }
     split.
     + unfold Inv. split; [rewrite P1, setZ_length; auto|]. split; [lia|]. split; [lia|].
-      split; [rewrite P3; auto|]. split; [|split; [|split; [|split]]].
+      split; [rewrite P3; auto|]. split; [|split; [|split; [|split; [|split]]]].
       * intros idx Hidx. destruct (Z_lt_ge_dec idx ns1).
         -- rewrite P5 by lia. apply Hstk. lia.
         -- destruct (P6 idx) as [J1 [J2 J3]]; [lia|]. apply in_zrange in J1.
@@ -701,6 +808,7 @@ Proof.
         -- fold v in Hg. lia.
         -- right. exists idx. split; [lia|]. rewrite P5 by lia. auto.
       * rewrite P1, HU. lia.
+      * rewrite P1, Hpot'. lia.
     + unfold mu. rewrite P1, HU. lia.
 Qed.
 
@@ -722,11 +830,13 @@ Proof.
     + split; auto. destruct (mu_nonneg s HI). lia.
 Qed.
 
-Lemma dfs_init_inv : forall stk0 b, length stk0 = Z.to_nat (n * n) -> b = false ->
+Lemma dfs_init_inv : forall stk0 b, length stk0 = Lc -> b = false ->
   Inv (mkFF lab0 (setZ stk0 0 r) 1 b) /\ mu (mkFF lab0 (setZ stk0 0 r) 1 b) <= Z.of_nat (ff_fuel n).
 Proof.
   intros stk0 b Hl ->. pose proof U0_le.
   assert (Hnn : n <= n * n) by nia.
+  assert (HL1 : 1 <= Z.of_nat Lc).
+  { pose proof (zsum_map_nonneg (row_deg n adj) (zrange n) (fun x _ => row_deg_nonneg x)). unfold nnz_off in HLc. lia. }
   split.
   - unfold Inv; cbn [lab stk ns bad]. rewrite setZ_length.
     split; [auto|]. split; [auto|]. split; [lia|]. split; [auto|].
@@ -736,7 +846,7 @@ Proof.
     split; [intros; left; auto|].
     split. { intros v w Hv Hw Hvk. pose proof (Hfresh v Hv). lia. }
     split. { right. exists 0. split; [lia|]. apply getZ_setZ_same. lia. }
-    lia.
+    split; lia.
   - unfold mu, ff_fuel; cbn [ns lab]. lia.
 Qed.
 
@@ -755,9 +865,9 @@ Definition Out (i : Z) (l : list Z) (k : Z) : Prop :=
                                      forall v, inr n v -> c <= getZ l v -> m <= v).
 
 Lemma ff_outer_inv : forall i s k, Out i (lab s) k -> inr n i ->
-  length (stk s) = Z.to_nat (n * n) -> bad s = false ->
+  length (stk s) = Lc -> bad s = false ->
   Out (i + 1) (lab (fst (ff_outer n adj (s, k) i))) (snd (ff_outer n adj (s, k) i)) /\
-  length (stk (fst (ff_outer n adj (s, k) i))) = Z.to_nat (n * n) /\
+  length (stk (fst (ff_outer n adj (s, k) i))) = Lc /\
   bad (fst (ff_outer n adj (s, k) i)) = false.
 Proof.
   intros i s k [O1 [O2 [O3 [O4 [O5 [O6 [O7 O8]]]]]]] Hi Hstk Hbad.
@@ -784,6 +894,8 @@ Proof.
     assert (Hti : touched n adj i).
     { apply has_edge_touched. destruct (has_edge n adj i); auto. }
     assert (Hnn : n <= n * n) by nia.
+    assert (HL1 : 1 <= Z.of_nat Lc).
+    { pose proof (zsum_map_nonneg (row_deg n adj) (zrange n) (fun x _ => row_deg_nonneg x)). unfold nnz_off in HLc. lia. }
     assert (Hb : bad s || negb (in_array (stk s) 0) = false).
     { rewrite Hbad. unfold in_array. lia. }
     assert (Hfresh : forall v, inr n v -> getZ (lab s) v < k) by (intros v Hv; apply O3; auto).
@@ -849,11 +961,11 @@ Proof.
   intros; lia.
 Qed.
 
-Lemma flood_fold_inv : forall stk0, length stk0 = Z.to_nat (n * n) ->
+Lemma flood_fold_inv : forall stk0, length stk0 = Lc ->
   forall m, 0 <= m -> m <= n ->
   Out m (lab (fst (fold_left (ff_outer n adj) (zrange m) (mkFF (zfill n (-1)) stk0 0 false, 0))))
         (snd (fold_left (ff_outer n adj) (zrange m) (mkFF (zfill n (-1)) stk0 0 false, 0))) /\
-  length (stk (fst (fold_left (ff_outer n adj) (zrange m) (mkFF (zfill n (-1)) stk0 0 false, 0)))) = Z.to_nat (n * n) /\
+  length (stk (fst (fold_left (ff_outer n adj) (zrange m) (mkFF (zfill n (-1)) stk0 0 false, 0)))) = Lc /\
   bad (fst (fold_left (ff_outer n adj) (zrange m) (mkFF (zfill n (-1)) stk0 0 false, 0))) = false.
 Proof.
   intros stk0 Hl m Hm. pattern m. apply natlike_ind; auto.
@@ -866,7 +978,7 @@ Proof.
     apply ff_outer_inv; auto. unfold inr; lia.
 Qed.
 
-Theorem flood_fill_components_sec : forall stk0, length stk0 = Z.to_nat (n * n) ->
+Theorem flood_fill_components_cap : forall stk0, length stk0 = Lc ->
   length (ff_labels n adj stk0) = Z.to_nat n /\
   0 <= ff_nisland n adj stk0 /\
   (forall a, inr n a -> -1 <= getZ (ff_labels n adj stk0) a < ff_nisland n adj stk0) /\
@@ -898,6 +1010,50 @@ Proof.
 Qed.
 
 End FloodFill.
+
+(* ntree*ntree ints are enough: there are at most ntree*(ntree-1) directed off-diagonal edges *)
+Lemma row_deg_le : forall n adj v, inr n v -> row_deg n adj v <= n - 1.
+Proof.
+  intros n adj v Hv. unfold row_deg.
+  assert (H1 : cntf (fun w => negb (get2 adj v w =? 0) && negb (w =? v)) (zrange n) <= cntf (fun w => negb (w =? v)) (zrange n))
+    by (apply cntf_mono; intros; lia).
+  assert (H2 : cntf (fun _ => true) (zrange n) = cntf (fun w => w =? v) (zrange n) + cntf (fun w => negb (w =? v)) (zrange n))
+    by (apply cntf_split; intros; lia).
+  rewrite cntf_all in H2 by auto. rewrite zrange_length in H2.
+  rewrite (cntf_eq_one (zrange n) v) in H2; [unfold inr in Hv; lia|apply NoDup_zrange|apply in_zrange; auto].
+Qed.
+
+Lemma zsum_map_const_le : forall (f : Z -> Z) c l, (forall x, In x l -> f x <= c) -> zsum (map f l) <= c * Z.of_nat (length l).
+Proof.
+  induction l; intros H; cbn [map zsum fold_right length]; [lia|]. fold (zsum (map f l)).
+  pose proof (H a (or_introl eq_refl)). assert (zsum (map f l) <= c * Z.of_nat (length l)) by (apply IHl; intros; apply H; simpl; auto). lia.
+Qed.
+
+Lemma nnz_off_le : forall n adj, 0 <= n -> nnz_off n adj <= (n - 1) * n.
+Proof.
+  intros n adj Hn. unfold nnz_off.
+  pose proof (zsum_map_const_le (row_deg n adj) (n - 1) (zrange n)) as H. rewrite zrange_length in H.
+  replace (Z.of_nat (Z.to_nat n)) with n in H by lia. apply H. intros x Hx. apply row_deg_le. apply in_zrange; auto.
+Qed.
+
+Theorem flood_fill_components_sec : forall n adj, 0 < n -> sym_adj n adj ->
+  forall stk0, length stk0 = Z.to_nat (n * n) ->
+  length (ff_labels n adj stk0) = Z.to_nat n /\
+  0 <= ff_nisland n adj stk0 /\
+  (forall a, inr n a -> -1 <= getZ (ff_labels n adj stk0) a < ff_nisland n adj stk0) /\
+  (forall a, inr n a -> (getZ (ff_labels n adj stk0) a = -1 <-> ~ touched n adj a)) /\
+  (forall a b, inr n a -> inr n b ->
+     (0 <= getZ (ff_labels n adj stk0) a /\ getZ (ff_labels n adj stk0) a = getZ (ff_labels n adj stk0) b
+      <-> touched n adj a /\ conn n adj a b)) /\
+  (forall c, 0 <= c < ff_nisland n adj stk0 ->
+     exists r, inr n r /\ getZ (ff_labels n adj stk0) r = c /\
+               forall v, inr n v -> c <= getZ (ff_labels n adj stk0) v -> r <= v) /\
+  ff_bad n adj stk0 = false.
+Proof.
+  intros n adj Hn Hsym stk0 Hl.
+  apply (flood_fill_components_cap n adj Hn Hsym (Z.to_nat (n * n))); auto.
+  pose proof (nnz_off_le n adj). nia.
+Qed.
 
 
 (* ================= D. slot allocation by atomic counters, any task order ================= *)
@@ -1148,13 +1304,6 @@ Proof. reflexivity. Qed.
 Lemma psum_succ : forall l j, 0 <= j -> psum l (j + 1) = psum l j + getZ l j.
 Proof.
   intros. unfold psum, getZ. replace (Z.to_nat (j + 1)) with (S (Z.to_nat j)) by lia. reflexivity.
-Qed.
-
-Lemma cntf_all : forall p l, (forall x, In x l -> p x = true) -> cntf p l = Z.of_nat (length l).
-Proof.
-  induction l; intros; auto. rewrite cntf_cons.
-  rewrite IHl by (intros; apply H; simpl; auto). rewrite (H a) by (simpl; auto).
-  cbn [length]. lia.
 Qed.
 
 (* the counting launches never change array lengths *)
@@ -2032,4 +2181,20 @@ Example ex_hypotheses :
   ff_labels 4 ex_adj (zfill 16 9) = [0; 1; 0; -1] /\ ff_nisland 4 ex_adj (zfill 16 9) = 2.
 Proof.
   split; [reflexivity|]. split; [exact ex_adj_sym|]. split; [reflexivity|]. split; reflexivity.
+Qed.
+
+(* the allocation matters: the complete graph on 5 trees drives the stack to depth 7 > ntree;
+   with only ntree slots the model's out-of-bounds flag is raised (seeded change C17-3) *)
+Definition ex_K5 : list (list Z) := map (fun i => map (fun j => if i =? j then 0 else 1) (zrange 5)) (zrange 5).
+Example ex_K5_depth : nnz_off 5 ex_K5 = 20 /\ ff_bad 5 ex_K5 (zfill 5 0) = true /\
+                      ff_bad 5 ex_K5 (zfill 6 0) = true /\ ff_bad 5 ex_K5 (zfill 7 0) = false.
+Proof. vm_compute. repeat split; reflexivity. Qed.
+
+(* depth of the explicit stack <= 1 + number of directed off-diagonal edges: any scratch array of
+   at least that many ints is never overrun (the ghost flag records every out-of-range write) *)
+Theorem flood_fill_stack_depth_le_edges : forall n adj stk0, 0 < n -> sym_adj n adj ->
+  1 + nnz_off n adj <= Z.of_nat (length stk0) -> ff_bad n adj stk0 = false.
+Proof.
+  intros n adj stk0 Hn Hsym Hcap.
+  apply (flood_fill_components_cap n adj Hn Hsym (length stk0) Hcap stk0 eq_refl).
 Qed.
